@@ -1,5 +1,6 @@
 import CssVerif.Model.Codec
 import CssVerif.Model.CodecInc
+import CssVerif.Model.CodecInner
 open CssVerif.Proto CssVerif.Codec
 
 def showEnc : Enc → String
@@ -47,6 +48,53 @@ def incenc (given : Option Name) (chunks : List (List Nat)) : String :=
   " ".intercalate r.2 ++ " | " ++ encCps fin.2 ++ " | " ++ showESt r.1 ++ " | " ++
     encCps (encodeOneShot idInnerEnc given chunks.flatten)
 
+/-! ### inner codecs (Model/CodecInner.lean) -/
+
+def parseCName : String → Option CName
+  | "u8" => some (.plain .u8) | "u8sig" => some .u8sig | "u16" => some .u16 | "u32" => some .u32
+  | "u16le" => some (.plain .u16le) | "u16be" => some (.plain .u16be)
+  | "u32le" => some (.plain .u32le) | "u32be" => some (.plain .u32be)
+  | "l1" => some (.plain .l1) | "ascii" => some (.plain .ascii)
+  | _ => none
+
+def showKind : Option Kind → String
+  | none => "none" | some .u8 => "u8" | some .u16le => "u16le" | some .u16be => "u16be"
+  | some .u32le => "u32le" | some .u32be => "u32be" | some .l1 => "l1" | some .ascii => "ascii"
+
+def isBytes (l : List Nat) : Bool := l.all (· < 256)
+
+/-- `pdec c final bytes`: one `_buffer_decode(bytes, "strict", final)` of a fresh decoder: text, consumed -/
+def pdec (c : CName) (final : Bool) (d : List Nat) : String :=
+  let r := sniff c d final
+  if r.res.err then "RAISE" else encCps r.res.text ++ " " ++ toString (d.length - r.res.pend.length) ++ " " ++ showKind r.mode
+
+/-- `idec c chunk…`: outputs of `decode(chunk, False)` …, `decode(b"", True)`; `RAISE` ends the list -/
+def idec (c : CName) (chunks : List (List Nat)) : String :=
+  let rec go (s : ISt) (cs : List (List Nat)) (acc : List String) : List String :=
+    match cs with
+    | [] => match istep c s [] true with
+      | none => ("RAISE" :: acc).reverse
+      | some (_, t) => (encCps t :: acc).reverse
+    | x :: xs => match istep c s x false with
+      | none => ("RAISE" :: acc).reverse
+      | some (s', t) => go s' xs (encCps t :: acc)
+  " ".intercalate (go c.init chunks []) ++ " | " ++
+    (match incDecode c chunks with | none => "RAISE" | some t => encCps t) ++ " | " ++
+    (match statelessDecode c chunks.flatten with | none => "RAISE" | some t => encCps t)
+
+def ienc (c : CName) (chunks : List (List Nat)) : String :=
+  let rec go (s : Bool) (cs : List (List Nat)) (acc : List String) : List String :=
+    match cs with
+    | [] => match estepInner c s [] with
+      | none => ("RAISE" :: acc).reverse
+      | some (_, t) => (encCps t :: acc).reverse
+    | x :: xs => match estepInner c s x with
+      | none => ("RAISE" :: acc).reverse
+      | some (s', t) => go s' xs (encCps t :: acc)
+  " ".intercalate (go true chunks []) ++ " | " ++
+    (match incEncode c chunks with | none => "RAISE" | some t => encCps t) ++ " | " ++
+    (match statelessEncode c chunks.flatten with | none => "RAISE" | some t => encCps t)
+
 def handle (line : String) : String :=
   match words line with
   | ["detect", f, b] => match decCps b with
@@ -69,6 +117,15 @@ def handle (line : String) : String :=
       let given := if g == "none" then some none else (decCps g).map some
       match given, chunks.mapM decCps with
       | some given, some cs => incenc given cs
+      | _, _ => "bad-op"
+  | ["pdec", c, f, b] => match parseCName c, decCps b with
+      | some c, some d => if isBytes d then pdec c (f == "1") d else "bad-op"
+      | _, _ => "bad-op"
+  | "idec" :: c :: chunks => match parseCName c, chunks.mapM decCps with
+      | some c, some cs => if cs.all isBytes then idec c cs else "bad-op"
+      | _, _ => "bad-op"
+  | "ienc" :: c :: chunks => match parseCName c, chunks.mapM decCps with
+      | some c, some cs => ienc c cs
       | _, _ => "bad-op"
   | _ => "bad-op"
 
